@@ -34,6 +34,9 @@ func checkC01(c *Ctx, r *Report, tier string) {
 	visitedSetSeeded(c, r, "C01.R7")
 	r.Rule("C01.R8", "current metadata: the apply functions never hand one map, allocated before a loop over batch items and written inside it, to the index for several items", 1)
 	sharedMapAcrossItems(c, r, "C01.R8")
+	r.Rule("C01.R9", "a failed partition is not an empty one, and current metadata stays current: every stream Recv error other than io.EOF is reported by the search workers; a metadata merge copies old entries only for absent keys", 2)
+	recvErrorsHandled(c, r, "C01.R9", "storage")
+	metadataMergeKeepsNewKeys(c, r, "C01.R9")
 }
 
 // --- R1 ---------------------------------------------------------------------------
@@ -482,6 +485,16 @@ func c01R4(c *Ctx, r *Report, x *idxInfo) {
 					r.OKTrivial("C01.R4", fnName(f), cons, pos, "delegates to another search function")
 					continue
 				}
+				// a sort-and-cut helper: handed the merged list and k, returns the sorted prefix
+				if cl, isCall := v.(*ssa.Call); isCall && cl.Call.StaticCallee() != nil && modLocal(cl.Call.StaticCallee()) && len(cl.Call.StaticCallee().Blocks) > 0 {
+					if ok, why := sortCutHelper(c, cl.Call.StaticCallee(), srT); ok {
+						r.OK("C01.R4", fnName(f), cons, pos, "the result is cut by "+cl.Call.StaticCallee().Name()+": "+why)
+						continue
+					} else if why != "" {
+						r.Bad("C01.R4", fnName(f), cons, pos, "the result is cut by "+cl.Call.StaticCallee().Name()+": "+why)
+						continue
+					}
+				}
 				r.Unk("C01.R4", fnName(f), cons, pos, "result comes from a call that is not a search function")
 			case *ssa.Slice:
 				if al, ok := y.X.(*ssa.Alloc); ok && al.Comment == "makeslice" {
@@ -529,6 +542,52 @@ func c01R4(c *Ctx, r *Report, x *idxInfo) {
 			}
 		}
 	}
+}
+
+// sortCutHelper: h takes a SearchResult and a k and returns, on every path, the prefix of that list bounded by
+// min(k, len) with a sort of the list dominating the return. ("", false) when h does not have that signature.
+func sortCutHelper(c *Ctx, h *ssa.Function, srT *types.Named) (bool, string) {
+	res := h.Signature.Results()
+	if res.Len() != 1 || namedOf(res.At(0).Type()) != srT {
+		return false, ""
+	}
+	var list, kp *ssa.Parameter
+	for _, p := range h.Params {
+		if namedOf(p.Type()) == srT {
+			list = p
+		}
+		if b, ok := p.Type().Underlying().(*types.Basic); ok && b.Info()&types.IsInteger != 0 {
+			kp = p
+		}
+	}
+	if list == nil || kp == nil {
+		return false, ""
+	}
+	for _, rt := range returnsOf(h) {
+		sl, ok := rt.Results[0].(*ssa.Slice)
+		if !ok {
+			return false, "a return of the helper is not a prefix of its list argument (the list may be returned unsorted or uncut)"
+		}
+		if strip(sl.X) != ssa.Value(list) {
+			return false, "the helper returns a slice of something other than its list argument"
+		}
+		if sl.High == nil || !minBounded(sl.High, kp, sl.X) {
+			return false, "the helper's re-slice is not bounded by min(k, len(list))"
+		}
+		sorted := false
+		eachInstr(h, func(i ssa.Instruction) {
+			if cc := plainCall(i); cc != nil {
+				id := callID(cc)
+				if id.Pkg == "sort" && (id.Name == "Sort" || id.Name == "Stable") && len(cc.Args) == 1 && strip(cc.Args[0]) == ssa.Value(list) && instrDominates(i, rt.Return) {
+					sorted = true
+				}
+			}
+		})
+		if !sorted {
+			return false, "no sort of the list dominates a return of the helper"
+		}
+	}
+	return true, "sort dominates every return; high bound is min(k, len)"
 }
 
 func isErrorType(t types.Type) bool {
